@@ -545,7 +545,7 @@ class SPSuite(Suite):
         return {"id": 0, "lines": ls}
 
     def gen_cases(self, rng, tier):
-        n = 1000 if tier == "quick" else 250000
+        n = 1000 if tier == "quick" else 150000
         cases = self.boundary_cases() + self.own_handle_cases() + self.value_cases() + \
             self.exhaustive_cases(3 if tier == "quick" else 4)
         for _ in range(n):
